@@ -270,3 +270,23 @@ def gen_huge_bin(rng: random.Random) -> dict:
     inst = {"W": W, "H": H, "items": items}
     assert valid_inst(inst), inst
     return inst
+
+
+def gen_large_items_bin(rng: random.Random) -> dict:
+    """Bins with sides of 4e4..1.5e5 and a few items nearly as large: item and
+    per-bin areas lie around and beyond 2**31 / 2**32 while the instance
+    stays cheap to build (few items, sides of similar length). Whatever the
+    objectives keep per bin or per item must hold such areas."""
+    W = rng.choice([46341, 50000, 65536, 92682, 131072, 150000,
+                    rng.randint(40000, 150000)])
+    H = rng.choice([46341, 60000, 65537, W, rng.randint(40000, 150000)])
+    items = []
+    for _ in range(rng.choice([1, 2, 2, 3])):
+        w = rng.randint(max(1, W // 3), W)
+        h = rng.randint(max(1, H // 3), H)
+        if rng.random() < 0.2:
+            w, h = W, H
+        items.append([w, h, rng.choice([1, 1, 2, 3])])
+    inst = {"W": W, "H": H, "items": items}
+    assert valid_inst(inst), inst
+    return inst
